@@ -37,3 +37,35 @@ Proof.
   intros. unfold kernel. destruct (RK.run_stages _ _ _ _ _ _ _ _) as [ks calls]. reflexivity.
 Qed.
 Print Assumptions C01_dopri5_errnorm_uses_user_tolerances.
+
+(* the same mechanism for RK23 and DOP853 (proofs/AcceptFacts.v): an iteration that continues either leaves (x, y)
+   where they were (the attempt was rejected) or went through an attempt whose error norm passed `err <= 1`.
+   For DOP853 that norm is the combined estimate err / sqrt(err^2 + 0.01 err2^2) built in the kernel from the two
+   embedded formulas whose orders are the theorems C02_dop853_estimators. *)
+Require IVP.model.Rk23 IVP.model.Dop853 IVP.proofs.AcceptFacts.
+
+Theorem C01_rk23_advance_implies_accepted :
+  forall (F : Type) (O : Ops F) (H : Type) (P : Rk23.params) f xend posneg hmax
+         (cb : H -> F -> F -> list F -> option (list F * F * F) -> H * flag F * list F) kern s s',
+    Rk23.step O P f xend posneg hmax cb kern s = inl s' ->
+    (Rk23.s_x s' = Rk23.s_x s /\ Rk23.s_y s' = Rk23.s_y s) \/
+    exists h, leb O (Rk23.at_err (kern (Rk23.s_x s) (Rk23.s_y s) (Rk23.s_k1 s) h)) (one O) = true.
+Proof.
+  intros F O H P f xend posneg hmax cb kern s s' E.
+  pose proof (AcceptFacts.rk23_advance_implies_accepted O P f xend posneg hmax cb kern s) as A.
+  rewrite E in A. exact A.
+Qed.
+Print Assumptions C01_rk23_advance_implies_accepted.
+
+Theorem C01_dop853_advance_implies_accepted :
+  forall (F : Type) (O : Ops F) (H : Type) (P : Dop853.params) f xend posneg hmax
+         (cb : H -> F -> F -> list F -> option (list F * F * F) -> H * flag F * list F) kern s s',
+    Dop853.step O P f xend posneg hmax cb kern s = inl s' ->
+    (Dop853.s_x s' = Dop853.s_x s /\ Dop853.s_y s' = Dop853.s_y s) \/
+    exists h, leb O (Dop853.at_err (kern (Dop853.s_x s) (Dop853.s_y s) (Dop853.s_k1 s) h)) (one O) = true.
+Proof.
+  intros F O H P f xend posneg hmax cb kern s s' E.
+  pose proof (AcceptFacts.dop853_advance_implies_accepted O P f xend posneg hmax cb kern s) as A.
+  rewrite E in A. exact A.
+Qed.
+Print Assumptions C01_dop853_advance_implies_accepted.
